@@ -22,14 +22,16 @@ Fixpoint lookup_arrivals (d : list N) (delta : N) : N :=
   | x :: d' => if delta <=? x then 1 else 1 + lookup_arrivals d' delta
   end.
 
-(* Curve::number_arrivals *)
+(* Curve::number_arrivals (with the repair of C11-plateau-curve: at exact multiples of the largest known
+   distance the last repetition is resolved by lookup, too) *)
 Definition curve_na (d : list N) (delta : N) : N :=
   if delta =? 0 then 0 else
   let last := lastN d in
   let prefix_jobs := (delta / last) * lenN d in
   let tail := delta mod last in
-  if hdN d <? tail then prefix_jobs + lookup_arrivals d tail
-  else prefix_jobs + b2n (0 <? tail).
+  if tail =? 0 then prefix_jobs - lenN d + lookup_arrivals d last
+  else if hdN d <? tail then prefix_jobs + lookup_arrivals d tail
+  else prefix_jobs + 1.
 
 (* Curve::extrapolate_next: max over k in 0..=n/2 of d[k] + d[n-k-1] *)
 Definition extrapolate_next (d : list N) : N :=
